@@ -73,6 +73,12 @@ func arBases() []base {
 	}
 }
 
+// debPre is deb-stored with an EMPTY member in front (an earlier member without data, e.g. for an empty name table).
+func debPre() base {
+	b := debBase(false, false)
+	return base{"deb-pre", append([]gen.ArmMember{mem("_pre", []byte{})}, b.ms...), true}
+}
+
 func debBases() []base {
 	return []base{debBase(false, false), debBase(true, true), debBase(true, false), debBase(false, true)}
 }
@@ -89,31 +95,163 @@ func (c corr) String() string { return fmt.Sprintf("m%d.%s=%q", c.M, c.Col, c.Va
 
 var cols = []string{"name", "ts", "uid", "gid", "size", "magic"}
 
-func colValues(col string, trueSize int) []string {
-	switch col {
-	case "size":
-		t := strconv.Itoa(trueSize)
-		raw := []string{"", strconv.Itoa(trueSize + 1), strconv.Itoa(trueSize - 1), "0", "-1", "-2", "-59", "-60", "-61", "-120", "+5",
-			"9999999999", "0x10", "1e3", "abc", " 7 "}
-		var out []string
-		seen := map[string]bool{t: true}
-		for _, v := range raw {
-			if !seen[v] {
-				seen[v] = true
-				out = append(out, v)
+// wideCols adds the mode column (the library keeps it as text; a reader that starts parsing it must not break).
+var wideCols = []string{"name", "ts", "uid", "gid", "mode", "size", "magic"}
+
+var colWidth = map[string]int{"name": 16, "ts": 12, "uid": 6, "gid": 6, "mode": 8, "size": 10}
+
+func isDigits(s string) bool {
+	if s == "" {
+		return false
+	}
+	for i := 0; i < len(s); i++ {
+		if s[i] < '0' || s[i] > '9' {
+			return false
+		}
+	}
+	return true
+}
+
+// alignments: how a value can sit in its column. L left-aligned (as every ar writer does), R right-aligned,
+// C one leading blank, T leading tab (strings.TrimSpace removes it like a blank), Z leading zeros (after the sign,
+// if any), P explicit '+' on an unsigned value.
+var alignments = []string{"L", "R", "C", "T", "Z", "P"}
+
+func align(v, a string, w int) (string, bool) {
+	var out string
+	switch a {
+	case "L":
+		out = v
+	case "R":
+		if len(v) >= w {
+			return "", false
+		}
+		out = strings.Repeat(" ", w-len(v)) + v
+	case "C":
+		out = " " + v
+	case "T":
+		out = "\t" + v
+	case "Z":
+		switch {
+		case isDigits(v):
+			out = "00" + v
+		case len(v) > 1 && (v[0] == '-' || v[0] == '+') && isDigits(v[1:]):
+			out = v[:1] + "0" + v[1:]
+		default:
+			return "", false
+		}
+	case "P":
+		if !isDigits(v) {
+			return "", false
+		}
+		out = "+" + v
+	}
+	if len(out) > w || v == "" {
+		return "", false
+	}
+	return out, true
+}
+
+// alignedAll returns every applicable alignment of every value.
+func alignedAll(vals []string, w int) []string {
+	var out []string
+	for _, v := range vals {
+		for _, a := range alignments {
+			if t, ok := align(v, a, w); ok {
+				out = append(out, t)
 			}
 		}
-		return out
+	}
+	return out
+}
+
+func dedupExcept(raw []string, except string) []string {
+	var out []string
+	seen := map[string]bool{except: true}
+	for _, v := range raw {
+		if !seen[v] {
+			seen[v] = true
+			out = append(out, v)
+		}
+	}
+	return out
+}
+
+// sizeTemplates lists the size-column texts as functions of the member's true size ("T", "T+1", "T-1" are
+// resolved per member). core = the left-aligned value classes; wide = every class in every alignment.
+func sizeTemplates(wide bool) []string {
+	core := []string{"", "T+1", "T-1", "0", "-1", "-2", "-59", "-60", "-61", "-120", "+5", "9999999999", "0x10", "1e3", "abc", " 7 "}
+	if !wide {
+		return core
+	}
+	out := append([]string{}, core...)
+	for _, v := range []string{"T", "T+1", "T-1", "0", "7", "-1", "-2", "-4", "-59", "-60", "-61", "-120", "999999999", "0x10", "1e3", "abc"} {
+		for _, a := range alignments[1:] {
+			out = append(out, v+"|"+a)
+		}
+	}
+	return out
+}
+
+// renderSize resolves a template for a member of true size T; ok=false when the alignment does not apply.
+func renderSize(tmpl string, T int) (string, bool) {
+	v, a := tmpl, "L"
+	if i := strings.LastIndexByte(tmpl, '|'); i >= 0 {
+		v, a = tmpl[:i], tmpl[i+1:]
+	}
+	switch v {
+	case "T":
+		v = strconv.Itoa(T)
+	case "T+1":
+		v = strconv.Itoa(T + 1)
+	case "T-1":
+		v = strconv.Itoa(T - 1)
+	}
+	if a == "L" {
+		return v, true
+	}
+	return align(v, a, 10)
+}
+
+func colValues(col string, trueSize int, wide bool) []string {
+	var raw []string
+	switch col {
+	case "size":
+		for _, t := range sizeTemplates(wide) {
+			if v, ok := renderSize(t, trueSize); ok {
+				raw = append(raw, v)
+			}
+		}
+		return dedupExcept(raw, strconv.Itoa(trueSize))
 	case "ts":
-		return []string{"", "-1", "x", "999999999999"}
+		raw = []string{"", "-1", "x", "999999999999"}
 	case "uid", "gid":
-		return []string{"", "-1", "x", "999999"}
+		raw = []string{"", "-1", "x", "999999"}
+	case "mode":
+		if !wide {
+			return nil
+		}
+		return dedupExcept(append([]string{"", "x", "77777777"}, alignedAll([]string{"-1", "644"}, 8)...), "100644")
 	case "name":
-		return []string{"", "/", "0123456789abcdef", strings.Repeat("\x00", 16)}
+		raw = []string{"", "/", "0123456789abcdef", strings.Repeat("\x00", 16)}
+		if wide {
+			raw = append(raw,
+				// GNU / SysV: long-name table, references into it, symbol tables
+				"//", "/0", "/3", "/35", "/99999999999999", "/123456789012345", "/-1", "/x", "/0/", " //", "/SYM64/", "__.SYMDEF", "__.SYMDEF SORTED",
+				// BSD: the name is the first <len> bytes of the data
+				"#1/0", "#1/3", "#1/20", "#1/99999999999", "#1/-1", "#1/x",
+				// NUL inside the column
+				"a\x00b", "\x00//", "/\x00", "//\x00")
+		}
+		return raw
 	case "magic":
 		return []string{"X\n", "`X", "XY"}
 	}
-	return nil
+	if wide { // ts, uid, gid: the sign class in every alignment, plus an aligned unsigned value
+		raw = append(raw, alignedAll([]string{"-1", "1"}, colWidth[col])...)
+		raw = dedupExcept(raw, "\x01never")
+	}
+	return raw
 }
 
 func apply(ms []gen.ArmMember, cs []corr) []gen.ArmMember {
@@ -129,6 +267,8 @@ func apply(ms []gen.ArmMember, cs []corr) []gen.ArmMember {
 			m.UID = c.Val
 		case "gid":
 			m.GID = c.Val
+		case "mode":
+			m.Mode = c.Val
 		case "size":
 			m.SizeSet, m.SizeText = true, c.Val
 		case "magic":
@@ -139,11 +279,18 @@ func apply(ms []gen.ArmMember, cs []corr) []gen.ArmMember {
 }
 
 // singles lists every (member, column, value).
-func singles(ms []gen.ArmMember) []corr {
+func singles(ms []gen.ArmMember) []corr { return singlesOf(ms, false) }
+
+// singlesOf: wide adds every alignment of the numeric value classes, the mode column and the special names.
+func singlesOf(ms []gen.ArmMember, wide bool) []corr {
 	var out []corr
+	cl := cols
+	if wide {
+		cl = wideCols
+	}
 	for i, m := range ms {
-		for _, col := range cols {
-			for _, v := range colValues(col, len(m.Data)) {
+		for _, col := range cl {
+			for _, v := range colValues(col, len(m.Data), wide) {
 				out = append(out, corr{i, col, v})
 			}
 		}
@@ -338,24 +485,18 @@ func Run(r *mc.Run) {
 
 	// ---- deb.Load: single size corruptions first (this is where a hang is expected on a reader that lets the
 	// offset stand still); one shard per size value, stopped at its first hang ----
-	sizeVals := colValues("size", -7) // every listed value incl. those that coincide with a true size
-	sizeVals = append(sizeVals, "true+1", "true-1")
-	r.Scenario("load-size-single", map[string]interface{}{"bases": len(debB), "members": 3, "size_values": sizeVals, "readerat_conventions": 2,
-		"note": "a shard (= one size value) stops at its first hang; later scenarios skip that value"},
+	sizeVals := sizeTemplates(true) // every value class in every alignment ("T" = the member's true size)
+	probeB := append(append([]base{}, debB...), debPre())
+	r.Scenario("load-size-single", map[string]interface{}{"bases": len(probeB), "size_templates": sizeVals, "readerat_conventions": 2,
+		"alignments": "L left | R right-aligned | C one leading blank | T leading tab | Z leading zeros | P leading '+'",
+		"note": "a shard (= one size template) stops at its first hang; later scenarios skip the size texts that hung"},
 		len(sizeVals), func(vi int, st *mc.Stats) bool {
 			lim := limiter{}
-			for _, b := range debB {
+			for _, b := range probeB {
 				for m := range b.ms {
-					v := sizeVals[vi]
-					switch v {
-					case "true+1":
-						v = strconv.Itoa(len(b.ms[m].Data) + 1)
-					case "true-1":
-						v = strconv.Itoa(len(b.ms[m].Data) - 1)
-					default:
-						if v == strconv.Itoa(len(b.ms[m].Data)) {
-							continue
-						}
+					v, ok := renderSize(sizeVals[vi], len(b.ms[m].Data))
+					if !ok || v == strconv.Itoa(len(b.ms[m].Data)) {
+						continue
 					}
 					cs := []corr{{m, "size", v}}
 					bs := gen.ArmBuild(apply(b.ms, cs))
@@ -435,6 +576,54 @@ func Run(r *mc.Run) {
 					return ok
 				})
 				return ok
+			})
+	}
+
+	// ---- wide alphabets: every alignment of the numeric value classes, the mode column, GNU/BSD special names;
+	// all sets of <= 2 columns (so e.g. an earlier member named "//" x a later member named "/35", both orders,
+	// with empty and non-empty data), at the ar level and through deb.Load ----
+	kw := 2
+	for _, b := range []base{arB[0], arB[1], debB[0], debB[1], debPre()} {
+		b := b
+		all := singlesOf(b.ms, true)
+		kb := kw
+		if !b.deb && !r.Quick() {
+			kb = 3
+		}
+		via := "ar"
+		if b.deb {
+			via = "ar + deb.Load"
+		}
+		r.Scenario("wide-columns-"+b.name, map[string]interface{}{"base": b.name, "members": len(b.ms), "columns": wideCols, "single_corruptions": len(all),
+			"max_columns_corrupted": kb, "via": via, "readerat_conventions": 2,
+			"name_values": colValues("name", 0, true), "mode_values": colValues("mode", 0, true), "uid_values": colValues("uid", 0, true)},
+			len(all), func(shard int, st *mc.Stats) bool {
+				lim := limiter{}
+				complete := true
+				supersets(all, shard, kb, func(cs []corr) bool {
+					bs := gen.ArmBuild(apply(b.ms, cs))
+					d := descOf(b, cs)
+					st.Transitions++
+					if int64(len(cs)) > st.MaxDepth {
+						st.MaxDepth = int64(len(cs))
+					}
+					x.one("wide-columns-"+b.name, st, lim, bs, "ar", d)
+					if b.deb {
+						if x.isHung(cs) {
+							st.Class("load skipped: size value already hung")
+							complete = false
+						} else if !x.one("wide-columns-"+b.name, st, lim, bs, "load", d) {
+							complete = false
+							return false
+						}
+					}
+					if r.Expired() {
+						complete = false
+						return false
+					}
+					return true
+				})
+				return complete
 			})
 	}
 
